@@ -396,7 +396,7 @@ def run(ctx):
                             'boundary': c.get('boundary')})
         for c in cases:
             ctx.hist('corr-kind', c[2]['kind'])
-        bad = ctx.corr('uniform', IMPORTS, 'run_any', 'out_eqb', cases, defs=DEFS, per_file=ctx.n(13, 24),
+        bad = ctx.corr('uniform', IMPORTS, 'run_any', 'out_eqb', cases, defs=DEFS, per_file=(len(cases) + 3) // 4,
                        nontrivial=lambda r: len(r['t'][0]) >= 2)
         for i in (bad or [])[:4]:
             # a disagreement is a broken correspondence; whether the PROPERTY fails on that input is decided by the oracle
